@@ -1791,11 +1791,46 @@ class Engine:
             yield st1, (vs if isinstance(vs, Raise) else tuple(vs))
 
     def e_List(self, node, st, fr):
+        if any(isinstance(e_, ast.Starred) for e_ in node.elts):
+            try:
+                outs = list(self._list_display_seq(node.elts, st.copy(), fr))
+            except Unsupported:
+                outs = None
+            if outs is not None:
+                yield from outs
+                return
         for st1, vs in self.eval_list(node.elts, st, fr):
             if isinstance(vs, Raise):
                 yield st1, vs
                 continue
             yield st1, self.new_list(st1, vs)
+
+    def _list_display_seq(self, elts, st, fr):
+        """[a, *xs, b] where xs may have symbolic length: a new list whose content is the concatenation."""
+        from . import lib as _lib
+
+        def go(i, st_, parts):
+            if i == len(elts):
+                sv = self.alloc(st_, list)
+                content = z3.Empty(V.ValSeq) if not parts else (parts[0] if len(parts) == 1 else z3.Concat(*parts))
+                st_.lists = z3.Store(st_.lists, V.Val.a(sv.t), content)
+                yield st_, sv
+                return
+            e_ = elts[i]
+            target = e_.value if isinstance(e_, ast.Starred) else e_
+            for st1, v in self.eval(target, st_, fr):
+                if isinstance(v, Raise):
+                    yield st1, v
+                    continue
+                if isinstance(e_, ast.Starred):
+                    part = _lib.seq_content(self, v, st1)
+                else:
+                    t = self.lift(v, st1)
+                    self.escape(st1, t)
+                    part = z3.Unit(t)
+                yield from go(i + 1, st1, parts + [part])
+
+        yield from go(0, st, [])
 
     def new_list(self, st, items):
         sv = self.alloc(st, list)
